@@ -1,7 +1,7 @@
 (* Entry points evaluated by the extracted driver: one harness case -> one report line. *)
 From Coq Require Import Ascii String.
 From Coq Require Import List NArith ZArith QArith Bool Arith.
-From V Require Import Str Num Tok Tables Items Doc Case Document.
+From V Require Import Str Num Tok Tables Items Read WellFormed Doc Case Pipeline Document.
 Import ListNotations.
 Local Open Scope string_scope.
 Local Open Scope list_scope.
@@ -23,6 +23,14 @@ Definition bool_str (b : bool) : str := if b then [49%N] else [48%N].
 Definition window (ts : list tok) (i : nat) : str :=
   safe (print (firstn 10 (skipn (i - 3) ts))).
 
+Definition doc_tie (d : doc) : bool :=
+  match d_content d with
+  | CSingle f b => section_tie (single_secdoc d f b)
+  | CMulti l => any_b (fun fb => section_tie (single_secdoc d (fst fb) (snd fb))) l
+  | CFigure _ => false
+  end
+  || is_half_tie (p_width (d_page d) * (1440 # 1)) || is_half_tie (p_height (d_page d) * (1440 # 1)).
+
 (* strict correspondence: lex (rtf_encode()) against the model's tokens *)
 Definition run_corr (id : str) (d : doc) (impl : sexp) : str :=
   let m := encode d in
@@ -32,9 +40,17 @@ Definition run_corr (id : str) (d : doc) (impl : sexp) : str :=
     match m with
     | Ok mt =>
       match first_diff mt it 0 with
-      | None => line [kv "id" id; kv "m" (s2l "ok"); kv "i" (s2l "ok"); kv "agree" (bool_str true);
-                      kv "ntok" (nat_str (length it))]
+      | None =>
+        let items_ok :=
+            match read_doc it, document_pages (Some (collect_colors d)) d with
+            | Some pd, Ok pages => list_eqb item_eqb (pd_items pd) (concat pages)
+            | _, _ => false
+            end in
+        line [kv "id" id; kv "m" (s2l "ok"); kv "i" (s2l "ok"); kv "agree" (bool_str true);
+              kv "ntok" (nat_str (length it)); kv "read" (bool_str items_ok);
+              kv "wf" (nat_str (wf_clause it))]
       | Some k => line [kv "id" id; kv "m" (s2l "ok"); kv "i" (s2l "ok"); kv "agree" (bool_str false);
+                        kv "tie" (bool_str (doc_tie d));
                         kv "at" (nat_str k); kv "mt" (window mt k); kv "it" (window it k)]
       end
     | Err e => line [kv "id" id; kv "m" (err_name e); kv "i" (s2l "ok"); kv "agree" (bool_str false)]
@@ -48,6 +64,40 @@ Definition run_corr (id : str) (d : doc) (impl : sexp) : str :=
   | _ => line [kv "id" id; kv "bad" (s2l "impl")]
   end.
 
+Definition doc_gb_bad (d : doc) : bool :=
+  match d_content d with
+  | CSingle f b => section_gb_bad (single_secdoc d f b)
+  | CMulti l => any_b (fun fb => section_gb_bad (single_secdoc d (fst fb) (snd fb))) l
+  | CFigure _ => false
+  end.
+
+(* C01: strict correspondence + well-formedness of the implementation's output *)
+Definition run_c01 (id : str) (d : doc) (impl : sexp) : str :=
+  let m := encode d in
+  let tie := doc_tie d in
+  match impl with
+  | SList [SNum [49%N]; SStr out] =>
+    let it := lex out in
+    let cl := wf_clause it in
+    let agree := match m with Ok mt => tok_list_eqb mt it | Err _ => false end in
+    line [kv "id" id; kv "agree" (bool_str agree); kv "tie" (bool_str tie);
+          kv "holds" (bool_str (Nat.eqb cl 0)); kv "clause" (nat_str cl);
+          kv "m" (match m with Ok _ => s2l "ok" | Err e => err_name e end);
+          kv "diff" (match m with
+                     | Ok mt => match first_diff mt it 0 with
+                                | Some k => window mt k ++ s2l " <> " ++ window it k
+                                | None => [] end
+                     | Err _ => [] end)]
+  | SList [SNum [48%N]; SStr cls] =>
+    let refusal_ok := str_eqb cls (s2l "ValueError") && doc_gb_bad d in
+    line [kv "id" id;
+          kv "agree" (bool_str (match m with Err e => str_eqb (err_name e) cls | Ok _ => false end));
+          kv "tie" (bool_str tie);
+          kv "holds" (bool_str refusal_ok); kv "clause" (s2l (if refusal_ok then "0" else "9"));
+          kv "m" (match m with Ok _ => s2l "ok" | Err e => err_name e end); kv "i" (safe cls)]
+  | _ => line [kv "id" id; kv "bad" (s2l "impl")]
+  end.
+
 Definition run_case (e : sexp) : str :=
   match e with
   | SList [SStr mode; SStr id; de; impl] =>
@@ -55,6 +105,7 @@ Definition run_case (e : sexp) : str :=
     | None => line [kv "id" id; kv "bad" (s2l "decode")]
     | Some d =>
       if str_eqb mode (s2l "corr") then run_corr id d impl
+      else if str_eqb mode (s2l "c01") then run_c01 id d impl
       else line [kv "id" id; kv "bad" (s2l "mode")]
     end
   | _ => s2l "bad=case"
